@@ -158,6 +158,21 @@ var shapes = []shape{
 	{"multi-sender-server", func(r *payload.SplitMix, cfg prog.Config, manual bool) *prog.Script {
 		return &prog.Script{Client: []prog.Act{{Op: 's', Size: 5}, {Op: 'h'}, {Op: 'R'}}, Handler: []prog.Act{{Op: 'r'}, {Op: 'P', Size: 2 + r.Intn(2)}}}
 	}},
+	{"multi-receiver-client", func(r *payload.SplitMix, cfg prog.Config, manual bool) *prog.Script {
+		s := &prog.Script{Client: []prog.Act{{Op: 's', Size: 5}, {Op: 'h'}, {Op: 'Q', Size: 2 + r.Intn(2)}}, Handler: []prog.Act{{Op: 'r'}}}
+		for i := 0; i < 3+r.Intn(8); i++ {
+			s.Handler = append(s.Handler, prog.Act{Op: 's', Size: sizes(r, cfg)})
+		}
+		return s
+	}},
+	{"multi-receiver-server", func(r *payload.SplitMix, cfg prog.Config, manual bool) *prog.Script {
+		s := &prog.Script{Handler: []prog.Act{{Op: 'Q', Size: 2 + r.Intn(2)}, {Op: 's', Size: 7}}}
+		for i := 0; i < 3+r.Intn(8); i++ {
+			s.Client = append(s.Client, prog.Act{Op: 's', Size: sizes(r, cfg)})
+		}
+		s.Client = append(s.Client, prog.Act{Op: 'h'}, prog.Act{Op: 'R'})
+		return s
+	}},
 	{"size-walk", func(r *payload.SplitMix, cfg prog.Config, manual bool) *prog.Script {
 		// one direction carries a walk over size classes that makes the connection reader grow,
 		// keep, drop (after a run of more than ten small packets) and re-grow its buffers
@@ -177,6 +192,10 @@ var shapes = []shape{
 			walk = append(walk, prog.Act{Op: 's', Size: large()})
 			if r.Intn(2) == 0 {
 				walk = append(walk, prog.Act{Op: 's', Size: r.Intn(40)}, prog.Act{Op: 's', Size: mid()}, prog.Act{Op: 's', Size: large()})
+			}
+			if sp := cfg.Client.Stream.SplitSize; (sp < 0 || sp >= 1<<18) && r.Intn(2) == 0 {
+				// one very large frame (the reader's buffer grows to hundreds of KiB) with small messages right behind it
+				walk = append(walk, prog.Act{Op: 's', Size: 250000 + r.Intn(400000)}, prog.Act{Op: 's', Size: r.Intn(40)}, prog.Act{Op: 's', Size: r.Intn(2000)})
 			}
 		}
 		if r.Intn(2) == 0 {
@@ -238,7 +257,7 @@ func scenario(id string, seed uint64, sh shape, held bool, real string) runner.R
 	}
 	if sh.name == "size-walk" {
 		// frames large enough for single-frame and multi-frame messages to alternate
-		sp := payload.Pick(r, []int{0, -1, 8192, 65536})
+		sp := payload.Pick(r, []int{0, -1, -1, 8192, 65536, 1 << 20})
 		cfg.Client.Stream.SplitSize, cfg.Server.Stream.SplitSize = sp, sp
 		cfg.Desc += fmt.Sprintf(" split:=%d", sp)
 	}
@@ -366,7 +385,7 @@ func scenario(id string, seed uint64, sh shape, held bool, real string) runner.R
 	if held {
 		// park a receiver between taking the delivered message and releasing it while more messages arrive
 		end = x.Rig.Pair.B
-		if sh.name == "server-stream" || sh.name == "multi-sender-server" {
+		if sh.name == "server-stream" || sh.name == "multi-sender-server" || sh.name == "multi-receiver-client" {
 			end = x.Rig.Pair.A
 		}
 		park = x.Rig.Dir.ParkAt("stream.msgrecv.held", end, 1+r.Intn(2))
@@ -451,17 +470,25 @@ func scenario(id string, seed uint64, sh shape, held bool, real string) runner.R
 		next := map[uint16]uint32{}
 		var order []prog.Event
 		sawEOF := false
+		var eofRet int64
+		multiRecv := (sh.name == "multi-receiver-client" && side == 'c') || (sh.name == "multi-receiver-server" && side == 's')
+		seenBy := map[sk]uint16{}
+		lastOf := map[uint16]uint32{}
 		for _, e := range evs {
 			if e.Side != side || (e.Op != "recv" && e.Op != "invoke") {
 				continue
 			}
 			if e.Err != nil {
 				if rig.Cat(e.Err) == "eof" {
+					if !sawEOF || e.Ret < eofRet {
+						eofRet = e.Ret
+					}
 					sawEOF = true
 				}
 				continue
 			}
-			if sawEOF {
+			if sawEOF && (!multiRecv || e.Call > eofRet) {
+				// (several receivers: only a receive that began after one had already returned end-of-stream counts)
 				failf("%c side received a message after end-of-stream", side)
 			}
 			if e.MsgErr != nil {
@@ -480,11 +507,32 @@ func scenario(id string, seed uint64, sh shape, held bool, real string) runner.R
 			if int(e.Msg.Len) != se.Size {
 				failf("%c side received (sender %d, seq %d) with %d body bytes, submitted %d (truncated or merged)", side, e.Msg.Sender, e.Msg.Seq, e.Msg.Len, se.Size)
 			}
+			if multiRecv {
+				// several receivers: each message goes to exactly one of them, and every receiver
+				// sees increasing sequence numbers
+				k := sk{e.Msg.Sender, e.Msg.Seq}
+				if seenBy[k] != 0 {
+					failf("%c side: message (sender %d, seq %d) was handed to two receivers (%d and %d): exactly-once delivery broken", side, e.Msg.Sender, e.Msg.Seq, seenBy[k], e.Rcv)
+				}
+				seenBy[k] = e.Rcv
+				if last, ok := lastOf[e.Rcv]; ok && e.Msg.Seq <= last {
+					failf("%c side: receiver %d obtained seq %d after seq %d", side, e.Rcv, e.Msg.Seq, last)
+				}
+				lastOf[e.Rcv] = e.Msg.Seq
+				order = append(order, se)
+				continue
+			}
 			if e.Msg.Seq != next[e.Msg.Sender] {
 				failf("%c side received sender %d's message %d when %d was next (reordered, duplicated or lost)", side, e.Msg.Sender, e.Msg.Seq, next[e.Msg.Sender])
 			}
 			next[e.Msg.Sender] = e.Msg.Seq + 1
 			order = append(order, se)
+		}
+		if multiRecv {
+			order = nil // the real-time order condition below is for one consumer
+			if s.Clean && len(seenBy) != okSends {
+				failf("graceful RPC: the %c side's receivers obtained %d of the %d messages whose send succeeded", side, len(seenBy), okSends)
+			}
 		}
 		// FIFO linearizability for one consumer: a send that returned before another was called is received first
 		for i := 0; i < len(order); i++ {
@@ -494,7 +542,7 @@ func scenario(id string, seed uint64, sh shape, held bool, real string) runner.R
 				}
 			}
 		}
-		if s.Clean && len(order) != okSends {
+		if s.Clean && !multiRecv && len(order) != okSends {
 			failf("graceful RPC: %c side received %d of the %d messages whose send succeeded", side, len(order), okSends)
 		}
 		if sh.name == "closer-race" && side == 's' && !closer {
